@@ -25,11 +25,13 @@ TData == /\ Ev.op = "data" /\ done' = TRUE
               /\ Chk(C("MnemonicsInOrder"), Ev.obs.names = Ev.names)
               /\ Chk(C("RowCount"), Ev.obs.nrows = Ev.nrows)
               /\ (Ev.obs.ncurves = Ev.ncurves /\ Ev.obs.nrows = Ev.nrows) =>
-                   /\ Chk(C("FiniteRecovered"), \A r \in 1..Ev.nrows, c \in 1..Ev.ncurves :
+                   \* rows are listed once per distinct (mask row, verdict row) pair: DOMAIN Ev.mask, not 1..Ev.nrows
+                   /\ Chk("Harness.RowsListed", Len(Ev.mask) = Len(Ev.obs.cells) /\ Len(Ev.mask) >= 1)
+                   /\ Chk(C("FiniteRecovered"), \A r \in DOMAIN Ev.mask, c \in 1..Ev.ncurves :
                                                    ~Ev.mask[r][c] => Ev.obs.cells[r][c] \in {"OK"})
-                   /\ Chk(C("NaNThroughNULL"), \A r \in 1..Ev.nrows, c \in 2..Ev.ncurves :
+                   /\ Chk(C("NaNThroughNULL"), \A r \in DOMAIN Ev.mask, c \in 2..Ev.ncurves :
                                                    Ev.mask[r][c] => Ev.obs.cells[r][c] = "NAN")
-                   /\ Chk(C("IndexNeverNulled"), \A r \in 1..Ev.nrows : Ev.obs.cells[r][1] # "NAN")
+                   /\ Chk(C("IndexNeverNulled"), \A r \in DOMAIN Ev.mask : Ev.obs.cells[r][1] # "NAN")
 
 \* ---- C03 ------------------------------------------------------------------------
 DOT == 46  COLON == 58
